@@ -244,7 +244,12 @@ def run_check(pid, tier, seed):
         undecided += ["unit %s: %s" % (unit, t) for t in R.tool_errors]
         assumptions += [a for a in R.assumptions if a not in assumptions]
         failed_fns = {}
+        canary_seen = any(f["fn"] is None and (f.get("lemma") or "").startswith("canary_must_fail") for f in R.failures)
+        if unit != "canary" and not R.tool_errors and not canary_seen:
+            undecided.append("unit %s: in-unit canary (ensures false under all assumed theories) did not fail - theories inconsistent?" % unit)
         for f in R.failures:
+            if f["fn"] is None and (f.get("lemma") or "").startswith("canary_must_fail"):
+                continue
             if f["fn"] is None:
                 # lemma or theory text failed: our own text, cannot be caused by /repo -> undecided
                 lp = P.get("lemma_prefix", pid)
